@@ -1535,6 +1535,13 @@ M('C07', 'original defect: from_Bflat never canonicalises a one-site unit cell',
   "        if (res.L > 1 or res.bc == 'infinite') and max(res.chi) > 1:", "        if res.L > 1 and max(res.chi) > 1:",
   'FORM-canonicalize-all-bonds')
 
+M('C17', 'original defect: LegCharge.from_hdf5 (compact) reads the last row of a possibly empty array', CH,
+  "            slices[1:] = blockcharges[:, 1]  # (works for a leg without any block as well)", "            slices[-1] = blockcharges[-1, 1]",
+  'HDF5-empty-safe')
+M('C17', 'original defect: MultiSpeciesLattice inherits the attribute-wise loader of Lattice', 'tenpy/models/lattice.py',
+  "        obj.simple_lattice = hdf5_loader.load(subpath + 'simple_lattice')\n        obj.N_species = hdf5_loader.load(subpath + 'N_species')\n", "        obj.simple_lattice = hdf5_loader.load(subpath + 'simple_lattice')\n",
+  'HDF5-inherited-loader')
+
 # ---------------------------------------------------------------- C16 / C19
 M('C16', 'GMRES restart: relative residual norm used for normalisation (round-3 seed b)', KRY,
   """        self.total_error.append([npc.norm(self.rs[-1]) / self.b_norm])
